@@ -105,7 +105,27 @@ func C03(c *Ctx) {
 		}
 		// CheckProof executed for every loop element
 		ncp := 0
-		for _, f := range core.WithClosures(vp) {
+		// the loop may live in the goroutine closure or in a helper of the executor it calls (checkProofGroup)
+		var vfuncs []*ssa.Function
+		seenVf := map[*ssa.Function]bool{}
+		var addVf func(f *ssa.Function, d int)
+		addVf = func(f *ssa.Function, d int) {
+			if f == nil || seenVf[f] || len(f.Blocks) == 0 || d > 2 {
+				return
+			}
+			seenVf[f] = true
+			vfuncs = append(vfuncs, f)
+			for _, a := range f.AnonFuncs {
+				addVf(a, d)
+			}
+			for _, call := range core.Calls(f) {
+				if g := core.StaticCallee(call); g != nil && core.PkgOf(g) == core.PkgOf(vp) {
+					addVf(g, d+1)
+				}
+			}
+		}
+		addVf(vp, 0)
+		for _, f := range vfuncs {
 			for _, in := range sites(f, callToMethod("CheckProof")) {
 				ncp++
 				body := in.Block()
